@@ -5,6 +5,7 @@ package main
 // verified in parallel).
 
 import (
+	"strconv"
 	"sync"
 	"fmt"
 	"math/big"
@@ -97,24 +98,27 @@ func NewCtx() *Ctx {
 }
 
 func (c *Ctx) key(t *Term) string {
-	var sb strings.Builder
-	sb.WriteString(t.op)
-	sb.WriteByte('|')
-	sb.WriteString(t.sort.str)
-	sb.WriteByte('|')
+	b := make([]byte, 0, 64)
+	b = append(b, t.op...)
+	b = append(b, '|')
+	b = append(b, t.sort.str...)
+	b = append(b, '|')
 	if t.num != nil {
-		sb.WriteString(t.num.String())
+		b = t.num.Append(b, 10)
 	}
-	sb.WriteByte('|')
-	fmt.Fprintf(&sb, "%d|", t.num2)
-	sb.WriteString(t.name)
+	b = append(b, '|')
+	b = strconv.AppendInt(b, int64(t.num2), 10)
+	b = append(b, '|')
+	b = append(b, t.name...)
 	for _, a := range t.args {
-		fmt.Fprintf(&sb, ",%d", a.id)
+		b = append(b, ',')
+		b = strconv.AppendInt(b, int64(a.id), 10)
 	}
 	for _, a := range t.bvars {
-		fmt.Fprintf(&sb, ";%d", a.id)
+		b = append(b, ';')
+		b = strconv.AppendInt(b, int64(a.id), 10)
 	}
-	return sb.String()
+	return string(b)
 }
 
 func (c *Ctx) intern(t *Term) *Term {
